@@ -1,5 +1,6 @@
 #!/bin/sh
-# tools/seed_verify.sh <worktree> <k> [rustflags]
+# tools/seed_verify.sh <worktree> <k> [rustflags]     (env DEMO_ARGS: extra cargo test arguments, e.g. --features ffi;
+# a demo<k>.sh is run as a shell script from the worktree root instead of a cargo test)
 # Confirms a seeded change independently, in the scratch worktree: patch<k>.diff applies to HEAD,
 # the existing test suite still passes with it, demo<k>.rs fails with it and passes without it.
 # Writes <worktree>/_seed/verify<k>.log ; exit 0 iff all four facts hold.
@@ -13,10 +14,15 @@ git apply "_seed/patch$K.diff"
 SUITE=$(cargo test --workspace --no-fail-fast --offline 2>&1 | grep -E "^test result" | tr '\n' ' ')
 echo "suite with patch: $SUITE" >> "$L"
 echo "$SUITE" | grep -q "FAILED\|[1-9][0-9]* failed" && { echo "SUITE FAILS WITH PATCH" >> "$L"; git checkout -q -- .; exit 1; }
-cp "_seed/demo$K.rs" "tests/seed_demo$K.rs"
-if RUSTFLAGS="$RF" cargo test --offline --test "seed_demo$K" ${RF:+--target-dir target_verif} >> "$L" 2>&1; then echo "DEMO PASSES WITH PATCH (should fail)" >> "$L"; R1=1; else echo "demo fails with patch: ok" >> "$L"; R1=0; fi
+if [ -f "_seed/demo$K.sh" ]; then
+  rundemo() { sh "_seed/demo$K.sh"; }
+else
+  cp "_seed/demo$K.rs" "tests/seed_demo$K.rs"
+  rundemo() { RUSTFLAGS="$RF" cargo test --offline $DEMO_ARGS --test "seed_demo$K" ${RF:+--target-dir target_verif}; }
+fi
+if rundemo >> "$L" 2>&1; then echo "DEMO PASSES WITH PATCH (should fail)" >> "$L"; R1=1; else echo "demo fails with patch: ok" >> "$L"; R1=0; fi
 git checkout -q -- .
-if RUSTFLAGS="$RF" cargo test --offline --test "seed_demo$K" ${RF:+--target-dir target_verif} >> "$L" 2>&1; then echo "demo passes without patch: ok" >> "$L"; R2=0; else echo "DEMO FAILS WITHOUT PATCH" >> "$L"; R2=1; fi
+if rundemo >> "$L" 2>&1; then echo "demo passes without patch: ok" >> "$L"; R2=0; else echo "DEMO FAILS WITHOUT PATCH" >> "$L"; R2=1; fi
 rm -f "tests/seed_demo$K.rs"; rm -rf target_verif
 [ "$R1" = 0 ] && [ "$R2" = 0 ] && { echo "VERIFIED" >> "$L"; exit 0; }
 exit 1
